@@ -293,6 +293,10 @@ def line_search(
             )
 
         if task[:2] == b"FG":
+            if not np.isfinite(steplength):
+                # the previous trial returned non-finite values and the interpolation
+                # produced a nan step: never evaluate the objective there
+                break
             steplength_0 = steplength
             # rounding in x0 + steplength * d may leave the box by one ulp
             f_m1, dphi_m1 = sf.fun_and_grad(np.clip(x0 + steplength * d, lb, ub))
